@@ -878,6 +878,84 @@ def pol_local_frame(ctx):
             construct='polarisation matrix not rotated with the ray frame'))
     else:
         res.ok('polarisation matrix follows the frame changes')
+    if not overrides:
+        return res
+    # the override of each axis rotates the matrices with exactly the matrix
+    # the base class applies to the direction cosines:  R (L, M, N) == the
+    # direction RealRays.rotate_a leaves, for symbolic angle and direction
+    for ax in 'xyz':
+        base = P.func('RealRays.rotate_' + ax)
+        over = pr.methods.get('rotate_' + ax)
+        if over is None:
+            res.fail(ctx.finding(
+                'POL-LOCAL-FRAME', base, base.node,
+                f'PolarizedRays overrides some rotations but not rotate_{ax}: '
+                f'a tilt about {ax} leaves the matrices in the old frame',
+                construct=f'rotate_{ax} not overridden'))
+            continue
+        res.saw(over)
+        sym = Sym()
+        ang = base.params[0]
+        heap = {}
+        evb = Ev(sym=sym, heap=heap)
+        evb.env[ang] = A('ANGLE')
+        try:
+            evb.run(base.node.body)
+        except Inconclusive as e:
+            raise AnalysisError(f'RealRays.rotate_{ax}: {e}')
+        newd = [heap.get('self.' + k, A('self.' + k)) for k in 'LMN']
+        # override: super call with the same angle, then one matrix applied
+        # to self.p from the left
+        calls_super = any(
+            isinstance(c, ast.Call) and isinstance(c.func, ast.Attribute) and
+            c.func.attr == 'rotate_' + ax and
+            isinstance(c.func.value, ast.Call) and
+            unparse(c.func.value.func) == 'super' and
+            [unparse(a_) for a_ in c.args] == [over.params[0]]
+            for c in ast.walk(over.node))
+        evo = Ev(sym=sym)
+        evo.env[over.params[0]] = A('ANGLE')
+        mat = None
+        for st in over.node.body:
+            if isinstance(st, ast.Assign):
+                try:
+                    evo.stmt(st)
+                except Inconclusive:
+                    pass
+            for c in ast.walk(st):
+                if isinstance(c, ast.Call) and c.args and isinstance(
+                        c.args[0], ast.List) and len(c.args[0].elts) == 3 \
+                        and all(isinstance(r_, ast.List) and
+                                len(r_.elts) == 3 for r_ in c.args[0].elts):
+                    try:
+                        mat = [[evo.ev(x) for x in r_.elts]
+                               for r_ in c.args[0].elts]
+                    except Inconclusive as e:
+                        raise AnalysisError(f'rotate_{ax} matrix: {e}')
+        helper = pr.methods.get('_rotate_p')
+        left = helper is not None and any(
+            isinstance(c, ast.Call) and unparse(c.func) == 'np.matmul' and
+            len(c.args) == 2 and unparse(c.args[1]) == 'self.p'
+            for c in ast.walk(helper.node)) or any(
+            isinstance(c, ast.Call) and unparse(c.func) == 'np.matmul' and
+            len(c.args) == 2 and unparse(c.args[1]) == 'self.p'
+            for c in ast.walk(over.node))
+        d0 = [A('self.L'), A('self.M'), A('self.N')]
+        ok = mat is not None and calls_super and left and all(
+            sym.eq(mat[i][0] * d0[0] + mat[i][1] * d0[1] + mat[i][2] * d0[2],
+                   newd[i]) for i in range(3))
+        if ok:
+            res.ok(f'rotate_{ax}: p <- R p with the matrix that rotates '
+                   f'(L, M, N)')
+        else:
+            res.fail(ctx.finding(
+                'POL-LOCAL-FRAME', over, over.node,
+                f'PolarizedRays.rotate_{ax} does not rotate the polarization '
+                f'matrices with the matrix RealRays.rotate_{ax} applies to '
+                f'the direction cosines (super call with the angle, '
+                f'p = R p): the matrices and the directions they are built '
+                f'from are in different frames',
+                construct=f'rotate_{ax} matrix'))
     return res
 
 
